@@ -20,7 +20,7 @@ def run(ctx):
         ctx.tlc_mc("server", "TimeoutHandlerMC", "TimeoutHandlerMC.cfg",
                    consts={"CONNS": conns, "MAXREQ": maxreq, "CONC": conc, "WRITES": writes, "KINDS": kinds},
                    workers=8, timeout=3000)
-    ntr = ctx.pick(120, 3000)
+    ntr = ctx.pick(80, 2500)
     recs = ctx.go_test(".", ["c16_"], "^TestVerifC16Timeout$", timeout=2400, env={"VERIF_C16_TRACES": ntr})
     ctx.absorb(recs)
     files = [f for f in str(ctx.extra.pop("trace_files", "")).split(",") if f]
